@@ -55,7 +55,10 @@ RULE = (
     "representative of every distinct directory shape left by level i. evaluations = forked executions "
     "judged by the oracle. non-trivial = the process died strictly inside the protocol (0 < k < N), the "
     "schedule has length >= 2 and an earlier write of the schedule also died strictly inside; distinct = "
-    "(site, payload sizes, pieces, list of crash boundaries of the schedule)."
+    "(site, payload sizes, pieces, list of crash boundaries of the schedule). Sub-check 'fixed' runs the same "
+    "exploration on a fixed list of small payloads for every call site (identical in every run; 'exhaustive' "
+    "refers to that list). Sub-check 'syscall' (thorough) repeats 2-3 drawn crash points per case on an "
+    "uninstrumented python process killed by strace at the corresponding system call."
 )
 ASSUMPTIONS = [
     "process death is modelled at the boundaries between file-system operations; a raw write is cut into at most "
@@ -861,9 +864,23 @@ def _body_syscall(c, tmp):
     return res
 
 
+def fixed_cases(tier):
+    """the same small payloads in every run, whatever the seed: every call site, complete schedule tree"""
+    out = []
+    for site in SITES:
+        if tier == "quick":
+            out.append({"site": site, "sizes": [2], "two_d": [False], "scales": [1.5, 2.5, 3.5], "depth": 2, "pieces": 1, "picks": [0], "torch_seed": 1})
+        else:
+            for sizes, depth in (([2], 4), ([700, 3], 3)):
+                out.append({"site": site, "sizes": sizes, "two_d": [False] * len(sizes), "scales": [1.5, 2.5, 3.5, 4.5, 5.5][: depth + 1],
+                            "depth": depth, "pieces": 2, "picks": [0, 1, 2, 3], "torch_seed": 1})
+    return out
+
+
 def subchecks(tier):
     subs = [
-        Sub("schedules", body, strategy=lambda: cases(tier), quick=32, thorough=480, pretags=pretags, shrink_s=20),
+        Sub("schedules", body, strategy=lambda: cases(tier), quick=32, thorough=320, pretags=pretags, shrink_s=20),
+        Sub("fixed", body, enumerate=fixed_cases, exhaustive=True, pretags=pretags),
     ]
     if tier == "thorough":
         subs.append(Sub("syscall", body_syscall, strategy=lambda: syscall_cases(tier), quick=2, thorough=96, pretags=pretags, shrink_s=30))
